@@ -1,27 +1,33 @@
 """C06 - every MDA algorithm converges to the multidisciplinary fixed point (exact-arithmetic slice).
 
 MDA.tla (with Dyadic.tla, Mat.tla) is the specification: coupled linear systems y = a(x) + B y with B
-nilpotent (integer) or dyadic contractive, Jacobi / Gauss-Seidel sweeps at the granularity of one
-discipline execution, the library's over-relaxation, the stop test on the squared normed residual, the
-exact rational solution and the bounds NilExact / APriori / APost, all model-checked by TLC.
+nilpotent (integer) or dyadic contractive over several coupling graphs (one group, weakly coupled head
+or tail, two groups in sequence, self-coupled disciplines), Jacobi / Gauss-Seidel sweeps and MDAChain
+programs at the granularity of one discipline execution, the resolved variables of each (inner) MDA, the
+library's over-relaxation, the stop test on the squared normed residual for five scalings, a second
+execution with or without warm start, the exact rational solution and the properties NilExact / NilStop /
+APriori / APost / ChainEqualsMonolithic / Budget, all model-checked by TLC - with the rules of
+gauss_seidel.py as read (refuted: finding D0601) and repaired (hold; used as the oracle).
 
 Binding
- (1) code -> spec: MDAJacobi / MDAGaussSeidel (no acceleration, relaxation w/2, every residual scaling
-     whose test is rational, listing orders, tolerances 2^-t, max_mda_iter, a second execution with or
-     without warm start) run on harness disciplines that log every execution; MDATrace.tla demands that
-     every logged input/output/returned value EQUALS the specification's (doubles are exact on the
-     slice) and that the number of sweeps and the convergence flag are the specification's.
- (2) spec -> code: every class of MDAFactory x acceleration x relaxation x scaling x order x warm start
-     on the instances TLC printed; the returned values and the re-execution residuals go back to TLC
+ (1) code -> spec: MDAJacobi / MDAGaussSeidel / MDAChain[either] (no acceleration, relaxation w/2 in
+     {1/2, 1, 3/2}, the five scalings, listing orders, tolerances 2^-t and 0, max_mda_iter, one or two
+     executions, warm start) run on harness disciplines that log every execution; MDATrace.tla demands
+     that every logged input / output / returned value EQUALS the specification's (doubles are exact on
+     the slice) and that the iteration count and convergence flag of every (inner) MDA are the
+     specification's.  Every invariant of MDA.tla is evaluated in every state of every trace.
+ (2) spec -> code: every class of MDAFactory (MDAChain with each inner class) x acceleration x
+     relaxation {0.5, 1, 1.2} x scaling x listing order x warm start on the instances TLC printed; the
+     returned values and the re-execution residuals of the harness disciplines go back to TLC
      (MDAReport.tla) as exact big dyadics and are judged against Exact and the bound of the
-     specification.
+     specification; "reports a normed residual <= tolerance within max_mda_iter" is demanded of every
+     run (the failing combinations on the unchanged tree are the known findings D17, D0602, D0603).
 """
 from __future__ import annotations
 
 import itertools
 import json
 import os
-import math
 import random
 
 import numpy as np
@@ -328,9 +334,6 @@ def judge_reports(ck, reports, base_consts):
     path = ck.work / "mda_reports.json"
     path.write_text(json.dumps([{k: v for k, v in r.items() if not k.startswith("_")} for r in reports]))
     cfg = base_consts + "INIT RInit\nNEXT RNext\nINVARIANT Judge\nCHECK_DEADLOCK FALSE\n"
-    if os.environ.get("C06_KEEP"):
-        import shutil
-        shutil.copy(path, os.environ["C06_KEEP"])
     r = ck.tlc("MDAReport", cfg, workers=1, timeout=170, coverage=False,
                env={"REPORT_FILE": str(path),
                     # BigNat recursion on 600-bit numbers: a deeper thread stack than the JVM default
@@ -354,26 +357,28 @@ def run(ck: Check):
     rnd = random.Random(ck.seed)
     if ck.thorough:
         profiles, seeds = (22, 12, 21, 11, 222, 121, 112), range(1, 41)
-        ex = dict(ws=(1, 2, 3), tols=(-1, 2, 6), maxits=(2, 4), scals=("no", "init", "ncpl", "sub", "comp"),
+        ex = dict(ws=(1, 2, 3), tols=(99, 2, 6), maxits=(2, 4), scals=("no", "init", "ncpl", "sub", "comp"),
                   warm=(False, True), nruns=2)
-        parts, n_traces, n_runs = 8, 1500, 6000
+        parts, selmod, n_traces, n_runs = 8, 48, 1500, 4000
     else:
         profiles, seeds = (22, 12, 222), range(1, 17)
         ex = dict(ws=(1, 2), tols=(2, 6), maxits=(2,), scals=("no", "init", "comp"))
-        parts, n_traces, n_runs = 1, 250, 380
-    base = dict(fams=("nil", "con"), profiles=profiles, seeds=list(seeds))
+        parts, selmod, n_traces, n_runs = 1, 8, 250, 380
+    seeds = list(seeds)
+    base = dict(fams=("nil", "con"), profiles=profiles, seeds=seeds)
     spec = "SPECIFICATION Spec\nCHECK_DEADLOCK FALSE\n" + inv_lines()
     acts = ("Exec", "Single", "EndPre", "EndSweep", "Stop", "Continue")
-    # exhaustive model checking of the specification (repaired rules) on instances x configurations,
-    # in slices of the configuration space so that every TLC run stays short
+    # exhaustive model checking of the specification (repaired rules) on instances x configurations;
+    # thorough: one TLC run per slice of the seeds (every TLC run stays short), a sample (Sel) of the
+    # configurations of each instance
     cases = []
-    selmod = (4 if ck.thorough else 8) * parts
+    chunk = -(-len(seeds) // parts)
     for part in range(parts):
-        r = ck.tlc("MDA", consts(**base, **ex, selmod=selmod, selres=(part,), emit=part == 0) + spec,
-                   workers=4, timeout=170, require_actions=acts if part == 0 else ())
-        if part == 0:
-            cases = [(D.Instance(v[1]), v[2], int(v[3]), frozenset(tuple(int(i) for i in o) for o in v[4]), bool(v[5]))
-                     for v in r.printed() if v and v[0] == "CASE"]
+        sub = dict(base, seeds=seeds[part * chunk:(part + 1) * chunk])
+        r = ck.tlc("MDA", consts(**sub, **ex, selmod=selmod, selres=(part % selmod,), emit=True) + spec,
+                   workers=4, timeout=170, require_actions=acts + (("NewRun",) if ck.thorough else ()))
+        cases += [(D.Instance(v[1]), v[2], int(v[3]), frozenset(tuple(int(i) for i in o) for o in v[4]), bool(v[5]))
+                  for v in r.printed() if v and v[0] == "CASE"]
     if not cases:
         raise MachineryError("MDA.tla printed no instance")
     ck.extra["instances"] = len(cases)
@@ -389,7 +394,8 @@ def run(ck: Check):
         ck.assumptions.append("the as-read Gauss-Seidel rules were not refuted on this slice of instances")
 
     # (1) traces
-    tconst = consts(**base, emit=False)
+    # MDATrace / MDAReport take their instances from the JSON file: the generator constants are idle
+    tconst = consts(fams=("nil",), profiles=(22,), seeds=(1,), emit=False)
     traces = []
     per = max(1, -(-n_traces // len(cases)))
     for case in cases:
